@@ -532,6 +532,20 @@ def main_classes():
             cmds['vcmd'] = VCmd
             return cmds
 
+    from doit.cmd_base import ModuleTaskLoader
+
+    class VLoader(ModuleTaskLoader):
+        """a loader with command line options of its own (as DodoTaskLoader has -f/-d/-k): they may be written in
+        front of the command name; `setup` is where a loader receives its option values"""
+
+        @property
+        def cmd_options(self):
+            return box.get('lspec', ())
+
+        def setup(self, opt_values):
+            box.setdefault('setup', []).append(params_obs(box['names'], opt_values, []))
+
+    box['VLoader'] = VLoader
     _main_cache[key] = (Main, VCmd, box)
     return _main_cache[key]
 
@@ -551,6 +565,18 @@ def impl_main(case, workdir):
     Main, VCmd, box = main_classes()
     gen = case['spec'][case['n_base']:]
     names = [o['name'] for o in case['spec']] + [k for k, _ in case['dodo'] if k not in [o['name'] for o in case['spec']]]
+    lspec = case.get('lspec')
+    prefix = list(case.get('pre') or [])
+    if lspec is not None:
+        # options of the loader come between the base options and the command's own (DoitCmdBase.get_options)
+        gen = gen[len(lspec):]
+        box['lspec'] = tuple(to_cmdoption_dict(o) for o in lspec)
+        make_loader = box['VLoader']
+    else:
+        box['lspec'] = ()
+        make_loader = ModuleTaskLoader
+    box['names'] = names
+    box['setup'] = []
     box['spec'] = tuple(to_cmdoption_dict(o) for o in gen)
     del box['seen'][:]
     ns = {'DOIT_CONFIG': {k: (list(v) if isinstance(v, list) else v) for k, v in case['dodo']}}
@@ -588,14 +614,15 @@ def impl_main(case, workdir):
             if case.get('prev_argv') is not None:
                 # an earlier invocation in the same process (new DoitMain / command objects) must leave no trace
                 try:
-                    Main(task_loader=ModuleTaskLoader(dict(ns)), **kw).run(['vcmd'] + list(case['prev_argv']))
+                    Main(task_loader=make_loader(dict(ns)), **kw).run(['vcmd'] + list(case['prev_argv']))
                 except BaseException:  # noqa
                     pass
                 del box['seen'][:]
+                box['setup'] = []
                 err.seek(0)
                 err.truncate()
             try:
-                code = Main(task_loader=ModuleTaskLoader(ns), **kw).run(['vcmd'] + list(case['argv']))
+                code = Main(task_loader=make_loader(ns), **kw).run(prefix + ['vcmd'] + list(case['argv']))
             except BaseException as ex:  # noqa
                 from doit.cmdparse import CmdParseError
                 if isinstance(ex, CmdParseError):
@@ -607,7 +634,11 @@ def impl_main(case, workdir):
     text = err.getvalue()
     if code == 0 and box['seen']:
         params, args = box['seen'][0]
-        return {'res': params_obs(names, params, args), 'exit': code}
+        out = {'res': params_obs(names, params, args), 'exit': code}
+        if lspec is not None and box['setup']:
+            out['setup'] = box['setup'][0]
+            out['setup']['ok']['pos'] = list(args)
+        return out
     if code == 3 and text.startswith('ERROR:') and 'Traceback' not in text:
         return {'res': {'err': classify_error(text)}, 'exit': code}
     return {'res': {'err': 'crash', 'exc': text.strip().split('\n')[-1][:80]}, 'exit': code}
